@@ -1,25 +1,705 @@
+// lockskel translates the functions of the Go files anchored by property C14
+// into lock skeletons (BbRe.LockSkel.Stmt) and writes them as a Lean file.
+// It is re-run by ./check on every invocation, so the Lean obligations are
+// always about the source as it is now.
+//
+//	go run . -repo /repo -out ../../lean/BbRe/Generated/LockSkel.lean
+//
+// Everything that is not a lock operation, a LockPile operation, a call to
+// another translated function, or control flow is erased. Constructs that
+// cannot be expressed become `unsupported` nodes (the Lean checker rejects
+// them); functions listed in skip.json are not translated and are listed, with
+// the reason, in the generated file. Non-default summaries (locks required on
+// entry / held on return) come from sigma.json and are verified by the checker
+// at the definition and at every call site.
 package main
 
 import (
+	"encoding/json"
+	"flag"
 	"fmt"
+	"go/ast"
+	"go/token"
+	"go/types"
 	"os"
-	"time"
+	"path/filepath"
+	"sort"
+	"strconv"
+	"strings"
 
 	"golang.org/x/tools/go/packages"
 )
 
-func main() {
-	t0 := time.Now()
-	cfg := &packages.Config{Dir: os.Args[1], Mode: packages.NeedName | packages.NeedFiles | packages.NeedSyntax | packages.NeedTypes | packages.NeedTypesInfo | packages.NeedImports | packages.NeedDeps,
-		Env: append(os.Environ(), "GOFLAGS=-mod=mod", "GOPROXY=off")}
-	pkgs, err := packages.Load(cfg, os.Args[2:]...)
+// Files whose functions are translated (relative to the repository root).
+var defaultFiles = []string{
+	"pkg/filesystem/virtual/in_memory_prepopulated_directory.go",
+	"pkg/filesystem/virtual/pool_backed_file_allocator.go",
+	"pkg/filesystem/virtual/nfs_handle_allocator.go",
+	"pkg/filesystem/virtual/nfsv4/nfs40_program.go",
+	"pkg/filesystem/virtual/nfsv4/nfs41_program.go",
+	"pkg/filesystem/virtual/nfsv4/opened_files_pool.go",
+	"pkg/cleaner/idle_invoker.go",
+	"pkg/scheduler/in_memory_build_queue.go",
+	"pkg/sync/lock_pile.go",
+	"pkg/filesystem/pool/bitmap_sector_allocator.go",
+	"pkg/filesystem/pool/block_device_backed_file_pool.go",
+	"pkg/filesystem/pool/quota_enforcing_file_pool.go",
+	"pkg/filesystem/pool/metrics_file_pool.go",
+	"pkg/filesystem/pool/empty_file_pool.go",
+	"pkg/filesystem/pool/hole_source.go",
+	"pkg/blobstore/batched_store_blob_access.go",
+	"pkg/blobstore/blob_access_mutable_proto_store.go",
+}
+
+func die(format string, a ...any) {
+	fmt.Fprintf(os.Stderr, "lockskel: "+format+"\n", a...)
+	os.Exit(1)
+}
+
+func loadJSON(path string, v any) {
+	b, err := os.ReadFile(path)
 	if err != nil {
-		panic(err)
+		die("%v", err)
 	}
+	if err := json.Unmarshal(b, v); err != nil {
+		die("%s: %v", path, err)
+	}
+}
+
+func leanStr(s string) string { return strconv.Quote(s) }
+
+func main() {
+	repo := flag.String("repo", "/repo", "repository root")
+	out := flag.String("out", "", "Lean file to write")
+	obl := flag.String("obl", "", "Lean file with the generated obligations (default: ../Properties/C14Generated.lean next to -out)")
+	filesFlag := flag.String("files", "", "comma separated list of files (default: the C14 anchors)")
+	sigmaPath := flag.String("sigma", "sigma.json", "declared non-default summaries")
+	skipPath := flag.String("skip", "skip.json", "functions that are not translated, with reasons")
+	verbose := flag.Bool("v", false, "print per-function skeleton sizes")
+	flag.Parse()
+
+	abs, err := filepath.Abs(*repo)
+	if err != nil {
+		die("%v", err)
+	}
+	files := defaultFiles
+	if *filesFlag != "" {
+		files = strings.Split(*filesFlag, ",")
+	}
+	t := &Tr{repo: abs, byObj: map[*types.Func]*Fn{}, byLit: map[*ast.FuncLit]*Fn{},
+		sigma: map[string]SigmaEntry{}, skip: map[string]string{}, sigmaUsed: map[string]bool{}, skipUsed: map[string]bool{}}
+	loadJSON(*sigmaPath, &t.sigma)
+	loadJSON(*skipPath, &t.skip)
+
+	wanted := map[string]bool{}
+	dirs := map[string]bool{}
+	for _, f := range files {
+		p := filepath.Join(abs, f)
+		if _, err := os.Stat(p); err != nil {
+			die("anchored file is gone: %s", f)
+		}
+		wanted[p] = true
+		dirs["./"+filepath.Dir(f)] = true
+	}
+	var patterns []string
+	for d := range dirs {
+		patterns = append(patterns, d)
+	}
+	sort.Strings(patterns)
+
+	t.fset = token.NewFileSet()
+	cfg := &packages.Config{
+		Dir:  abs,
+		Fset: t.fset,
+		Mode: packages.NeedName | packages.NeedFiles | packages.NeedSyntax | packages.NeedTypes |
+			packages.NeedTypesInfo | packages.NeedImports | packages.NeedDeps,
+		Env: append(os.Environ(), "GOFLAGS=-mod=mod", "GOPROXY=off"),
+	}
+	pkgs, err := packages.Load(cfg, patterns...)
+	if err != nil {
+		die("loading packages: %v", err)
+	}
+	sort.Slice(pkgs, func(i, j int) bool { return pkgs[i].PkgPath < pkgs[j].PkgPath })
 	for _, p := range pkgs {
-		fmt.Println(p.PkgPath, len(p.Syntax), len(p.Errors), time.Since(t0))
 		for _, e := range p.Errors {
-			fmt.Println("  ", e)
+			die("package %s: %v", p.PkgPath, e)
 		}
 	}
+
+	// ---- function table ---------------------------------------------------------
+	type pending struct {
+		fn   *Fn
+		body *ast.BlockStmt
+	}
+	var work []pending
+	for _, p := range pkgs {
+		for _, file := range p.Syntax {
+			fname := t.fset.Position(file.Pos()).Filename
+			if !wanted[fname] {
+				continue
+			}
+			delete(wanted, fname)
+			for _, d := range file.Decls {
+				fd, ok := d.(*ast.FuncDecl)
+				if !ok || fd.Body == nil {
+					continue
+				}
+				obj := p.TypesInfo.Defs[fd.Name].(*types.Func)
+				name := fnName(obj)
+				if why, ok := t.skip[name]; ok {
+					t.skipped = append(t.skipped, [2]string{name, why})
+					t.skipUsed[name] = true
+					continue
+				}
+				fn := &Fn{Name: name, Obj: obj, Decl: fd, Pkg: p, Formals: map[string]*types.Var{},
+					File: strings.TrimPrefix(fname, abs+"/"), Line: t.line(fd.Pos()), Exported: fd.Name.IsExported()}
+				sig := obj.Type().(*types.Signature)
+				if r := sig.Recv(); r != nil && r.Name() != "" {
+					fn.Formals[r.Name()] = r
+				}
+				for i := 0; i < sig.Params().Len(); i++ {
+					v := sig.Params().At(i)
+					if v.Name() != "" {
+						fn.Formals[v.Name()] = v
+					}
+					if isPileType(v.Type()) {
+						// the effect on the caller's pile depends on the path: no summary,
+						// the body is inlined at every call site instead
+						fn.InlineOnly = true
+					}
+				}
+				if fn.InlineOnly && fn.Exported {
+					die("%s is exported and takes a *LockPile: cannot be inlined at unknown call sites", name)
+				}
+				t.fns = append(t.fns, fn)
+				t.byObj[obj] = fn
+				work = append(work, pending{fn, fd.Body})
+			}
+		}
+	}
+	for f := range wanted {
+		die("file %s is not part of a loaded package", f)
+	}
+
+	// function literals: those that are not invoked in place become functions of their own
+	for _, w := range work {
+		t.analyse(w.fn, w.body, w.fn.Pkg.TypesInfo)
+		t.findLits(w.fn, w.body)
+	}
+
+	// ---- summaries ------------------------------------------------------------------
+	for _, f := range t.fns {
+		if e, ok := t.sigma[f.Name]; ok {
+			t.sigmaUsed[f.Name] = true
+			f.SigWhy = e.Why
+			for _, n := range e.Req {
+				id, err := t.sigLock(f, n)
+				if err != nil {
+					die("sigma.json: %v", err)
+				}
+				f.Req = append(f.Req, id)
+			}
+			for _, n := range e.Post {
+				id, err := t.sigLock(f, n)
+				if err != nil {
+					die("sigma.json: %v", err)
+				}
+				f.Post = append(f.Post, id)
+			}
+		}
+	}
+	for n := range t.sigma {
+		if !t.sigmaUsed[n] {
+			die("sigma.json names %s, which does not exist (any more); remove or rename the entry", n)
+		}
+	}
+	for n := range t.skip {
+		if !t.skipUsed[n] {
+			die("skip.json names %s, which does not exist (any more); remove or rename the entry", n)
+		}
+	}
+
+	// ---- translate ------------------------------------------------------------------
+	for _, f := range t.fns {
+		var body *ast.BlockStmt
+		if f.Decl != nil {
+			body = f.Decl.Body
+		} else {
+			body = f.Lit.Body
+		}
+		c := ctx{fn: f, pkg: f.Pkg, top: true}
+		f.Body = t.stmts(c, body.List)
+	}
+
+	// ---- relevance: functions whose skeleton is empty are dropped, calls to them erased ----
+	for _, f := range t.fns {
+		f.Relevant = len(f.Req) > 0 || len(f.Post) > 0
+		if f.InlineOnly {
+			f.Body = skipS // never called (inlined), no obligation of its own
+		}
+	}
+	isRel := func(g *Fn) bool { return g.Relevant }
+	for changed := true; changed; {
+		changed = false
+		for _, f := range t.fns {
+			if !f.Relevant && f.Body.relevantAtoms(isRel) {
+				f.Relevant = true
+				changed = true
+			}
+		}
+	}
+	for _, f := range t.fns {
+		f.Body = f.Body.prune(isRel)
+	}
+	id := 0
+	var rel []*Fn
+	for _, f := range t.fns {
+		if f.Relevant {
+			f.ID = id
+			id++
+			rel = append(rel, f)
+		}
+	}
+	t.finishCalls()
+
+	// classes every function may acquire, directly or through calls (verified closed in Lean: acqClosed)
+	acq := map[*Fn]map[int]bool{}
+	for _, f := range rel {
+		acq[f] = map[int]bool{}
+		ids := map[int]bool{}
+		f.Body.acqIDs(ids)
+		for id := range ids {
+			acq[f][t.lockClass[id]] = true
+		}
+	}
+	for changed := true; changed; {
+		changed = false
+		for _, f := range rel {
+			var cs []*CallSite
+			f.Body.calls(&cs)
+			for _, c := range cs {
+				for cl := range acq[c.Callee] {
+					if !acq[f][cl] {
+						acq[f][cl] = true
+						changed = true
+					}
+				}
+			}
+		}
+	}
+
+	// ---- emit -----------------------------------------------------------------------
+	bodies := map[*Fn]string{}
+	for _, f := range rel {
+		var bb strings.Builder
+		f.Body.lean(&bb, &t.whys)
+		bodies[f] = bb.String()
+	}
+	var b strings.Builder
+	b.WriteString("-- GENERATED by tools/lockskel from the Go sources; regenerated by ./check on every run. Do not edit.\n")
+	b.WriteString("import BbRe.Model.LockSkel\n")
+	b.WriteString("set_option maxRecDepth 100000\n")
+	b.WriteString("namespace BbRe.Generated.LockSkel\nopen BbRe.LockSkel\n\n")
+	writeStrList := func(name string, xs []string, doc string) {
+		fmt.Fprintf(&b, "/-- %s -/\ndef %s : List String := [", doc, name)
+		for i, x := range xs {
+			if i > 0 {
+				b.WriteString(",")
+			}
+			b.WriteString("\n  " + leanStr(x))
+		}
+		b.WriteString("]\n\n")
+	}
+	sort.Strings(files)
+	writeStrList("files", files, "translated Go files")
+	writeStrList("lockNames", t.locks.names, "lock id ↦ `class|canonical expression` (`#R` = read mode of an RWMutex)")
+	fmt.Fprintf(&b, "/-- lock id ↦ class id -/\ndef lockClass : List Nat := %s\n\n", natList(t.lockClass))
+	writeStrList("classNames", t.classes.names, "lock classes: `package.Type.field`")
+	writeStrList("pileNames", t.piles.names, "LockPile variables")
+	writeStrList("flagNames", t.flags.names, "lock-tracking boolean locals")
+	writeStrList("whyNames", t.whys.names, "reasons of `unsupported` nodes")
+	var fnNames []string
+	for _, f := range rel {
+		fnNames = append(fnNames, fmt.Sprintf("%s @%s:%d", f.Name, f.File, f.Line))
+	}
+	writeStrList("fnNames", fnNames, "function id ↦ name @file:line")
+	var trivial, inlined []string
+	for _, f := range t.fns {
+		if f.InlineOnly {
+			inlined = append(inlined, f.Name)
+		} else if !f.Relevant {
+			trivial = append(trivial, f.Name)
+		}
+	}
+	writeStrList("inlinedFns", inlined, "functions taking a *LockPile parameter: inlined at every call site, no obligation of their own")
+	writeStrList("trivialFns", trivial, "translated functions whose skeleton is empty (no lock operation, no call to a function with one); calls to them are erased")
+	b.WriteString("/-- functions that are not translated (tools/lockskel/skip.json), with the reason -/\ndef skipped : List (String × String) := [")
+	sort.Slice(t.skipped, func(i, j int) bool { return t.skipped[i][0] < t.skipped[j][0] })
+	for i, s := range t.skipped {
+		if i > 0 {
+			b.WriteString(",")
+		}
+		fmt.Fprintf(&b, "\n  (%s, %s)", leanStr(s[0]), leanStr(s[1]))
+	}
+	b.WriteString("]\n\n")
+	b.WriteString("/-- declared non-default summaries (tools/lockskel/sigma.json), with the justification -/\ndef declared : List (String × String) := [")
+	first := true
+	for _, f := range rel {
+		if len(f.Req) > 0 || len(f.Post) > 0 {
+			if !first {
+				b.WriteString(",")
+			}
+			first = false
+			fmt.Fprintf(&b, "\n  (%s, %s)", leanStr(f.Name), leanStr(f.SigWhy))
+		}
+	}
+	b.WriteString("]\n\n")
+	b.WriteString("/-- Σ: function ↦ (locks required on entry, locks held on return in their place) -/\ndef sigma : Sig := [")
+	for i, f := range rel {
+		if i > 0 {
+			b.WriteString(",")
+		}
+		fmt.Fprintf(&b, "\n  (%d, (%s, %s))", f.ID, natList(f.Req), natList(f.Post))
+	}
+	b.WriteString("]\n\n")
+	b.WriteString("/-- function ↦ lock classes it may acquire, directly or through calls (checked by `acqClosed`) -/\ndef acqTbl : AcqTbl := [")
+	for i, f := range rel {
+		if i > 0 {
+			b.WriteString(",")
+		}
+		var cl []int
+		for c := range acq[f] {
+			cl = append(cl, c)
+		}
+		sort.Ints(cl)
+		fmt.Fprintf(&b, "\n  (%d, %s)", f.ID, natList(cl))
+	}
+	b.WriteString("]\n\n")
+	var entries []int
+	for _, f := range rel {
+		if f.Exported {
+			entries = append(entries, f.ID)
+		}
+	}
+	fmt.Fprintf(&b, "/-- exported functions and methods: must be balanced and require nothing -/\ndef entries : List Nat := %s\n\n", natList(entries))
+	for _, f := range rel {
+		fmt.Fprintf(&b, "/-- %s (%s:%d) -/\ndef f%d : Stmt :=\n  %s\n\n", f.Name, f.File, f.Line, f.ID, bodies[f])
+	}
+	b.WriteString("def prog : Prog := [")
+	for i, f := range rel {
+		if i > 0 {
+			b.WriteString(", ")
+		}
+		fmt.Fprintf(&b, "(%d, f%d)", f.ID, f.ID)
+	}
+	b.WriteString("]\n\nend BbRe.Generated.LockSkel\n")
+
+	if *verbose {
+		for _, f := range rel {
+			fmt.Fprintf(os.Stderr, "%4d %5d %s\n", f.ID, f.Body.size(), f.Name)
+		}
+	}
+	nUnsup := 0
+	for _, f := range rel {
+		if f.Body.has("unsupported") {
+			nUnsup++
+		}
+	}
+	fmt.Fprintf(os.Stderr, "lockskel: %d files, %d functions (%d with a non-empty skeleton, %d with unsupported constructs), %d locks, %d classes, %d skipped\n",
+		len(files), len(t.fns), len(rel), nUnsup, len(t.locks.names), len(t.classes.names), len(t.skipped))
+	for _, w := range t.whys.names {
+		fmt.Fprintf(os.Stderr, "lockskel: unsupported: %s\n", w)
+	}
+	if *out == "" {
+		os.Stdout.WriteString(b.String())
+		return
+	}
+	writeIfChanged(*out, b.String())
+	if *obl == "" {
+		*obl = filepath.Join(filepath.Dir(*out), "..", "Properties", "C14Generated.lean")
+	}
+	writeIfChanged(*obl, obligations(rel))
+}
+
+// writeIfChanged keeps the timestamp of an unchanged file so that lake does not rebuild.
+func writeIfChanged(path, content string) {
+	if old, err := os.ReadFile(path); err == nil && string(old) == content {
+		return
+	}
+	if err := os.WriteFile(path, []byte(content), 0o644); err != nil {
+		die("%v", err)
+	}
+}
+
+func leanIdent(s string) string {
+	var b strings.Builder
+	for _, r := range s {
+		switch {
+		case r >= 'a' && r <= 'z', r >= 'A' && r <= 'Z', r >= '0' && r <= '9':
+			b.WriteRune(r)
+		case r == '$':
+			b.WriteString("_lit")
+		case r == '.':
+			b.WriteString("_")
+		}
+	}
+	return b.String()
+}
+
+// obligations renders Properties/C14Generated.lean: one kernel-evaluated theorem
+// per function, assembled into `consistent sigma prog = true`.
+func obligations(rel []*Fn) string {
+	var b strings.Builder
+	b.WriteString(`-- GENERATED by tools/lockskel together with BbRe/Generated/LockSkel.lean; regenerated by ./check on every run. Do not edit.
+import BbRe.Generated.LockSkel
+import BbRe.Lemmas.LockSkel
+import BbRe.Lemmas.LockSkelDiag
+import BbRe.Properties.C14
+/-!
+# C14 — obligations about the lock skeletons generated from the current source
+
+` + "`BbRe/Generated/LockSkel.lean`" + ` is rewritten by ` + "`tools/lockskel`" + ` from the Go sources on
+every ` + "`./check C14`" + `. The theorems below are therefore re-proved against the code as
+it is now, by kernel evaluation of the verified checker (` + "`decide +kernel`" + `; no
+` + "`native_decide`" + `): one theorem per translated function
+(` + "`checkFn sigma k f_k = true`" + `: started with exactly the locks its summary requires,
+no path releases a lock that is not held, and every returning path ends holding
+exactly the locks its summary promises), assembled into
+` + "`skeletons_consistent : consistent sigma prog = true`" + `, which is the hypothesis of
+` + "`C14.checker_sound`" + `. ` + "`entry_points_balanced`" + `: every exported function / method has
+the empty summary.
+
+The ` + "`#eval`" + ` only prints a readable explanation (function, held locks, path with Go
+line numbers) when an obligation fails; it proves nothing.
+-/
+set_option maxRecDepth 100000
+set_option Elab.async false
+namespace BbRe.Properties.C14Generated
+open BbRe.LockSkel BbRe.Generated.LockSkel
+
+def names : Diag.Names where
+  lock := fun i => lockNames.getD i s!"lock#{i}"
+  pile := fun i => pileNames.getD i s!"pile#{i}"
+  fn := fun i => fnNames.getD i s!"fn#{i}"
+  why := fun i => whyNames.getD i s!"why#{i}"
+
+#eval show IO Unit from do
+  let bad := Diag.explainAll names sigma prog
+  if !bad.isEmpty then
+    throw (IO.userError ("C14 lock balance violated: " ++ " || ".intercalate (bad.map (·.2))))
+
+`)
+	used := map[string]bool{}
+	thm := make([]string, len(rel))
+	for i, f := range rel {
+		n := "fn_" + leanIdent(f.Name)
+		for used[n] {
+			n += "'"
+		}
+		used[n] = true
+		thm[i] = n
+		fmt.Fprintf(&b, "/-- %s (%s:%d) meets its summary. -/\ntheorem %s : checkFn sigma %d f%d = true := by decide +kernel\n", f.Name, f.File, f.Line, n, f.ID, f.ID)
+	}
+	b.WriteString("\nend BbRe.Properties.C14Generated\n\nnamespace BbRe.Generated.LockSkelChain\nopen BbRe.LockSkel BbRe.Generated.LockSkel BbRe.Lemmas.LockSkel BbRe.Properties.C14Generated\n\n")
+	fmt.Fprintf(&b, "def p%d : Prog := []\ntheorem c%d : consistent sigma p%d = true := consistent_nil sigma\n", len(rel), len(rel), len(rel))
+	for i := len(rel) - 1; i >= 0; i-- {
+		fmt.Fprintf(&b, "def p%d : Prog := (%d, f%d) :: p%d\ntheorem c%d : consistent sigma p%d = true := consistent_cons %s c%d\n", i, rel[i].ID, rel[i].ID, i+1, i, i, thm[i], i+1)
+	}
+	b.WriteString("theorem prog_eq : prog = p0 := rfl\n\nend BbRe.Generated.LockSkelChain\n\nnamespace BbRe.Properties.C14Generated\nopen BbRe.LockSkel BbRe.Generated.LockSkel\n\n")
+	b.WriteString(`/-- Every translated function meets its summary (hypothesis of ` + "`C14.checker_sound`" + `). -/
+theorem skeletons_consistent : consistent sigma prog = true :=
+  BbRe.Generated.LockSkelChain.prog_eq ▸ BbRe.Generated.LockSkelChain.c0
+
+/-- Every exported function / method (RPC handlers, ` + "`virtual.Directory`/`Leaf`" + ` methods,
+file pool, cleaner and scheduler API) has the empty summary: it requires nothing and
+leaves nothing behind. -/
+theorem entry_points_balanced : entriesBalanced sigma entries = true := by decide +kernel
+
+/-- **No call leaves a lock behind** (for the code as it is now): every run of every
+exported function / method of the translated files that returns — whatever branches it
+took, however often its loops ran, including everything its callees did and every
+error return — never released a lock it did not hold and holds no lock at the end. -/
+theorem no_entry_point_leaves_a_lock_behind (f : Nat) (hf : f ∈ entries) (tr : List Ev)
+    (he : Exec prog f tr) : run [] tr = some [] := by
+  have hb := entry_points_balanced
+  unfold entriesBalanced at hb
+  have h1 := List.all_eq_true.mp hb f hf
+  exact BbRe.Properties.C14.balanced_entry_leaves_nothing sigma prog skeletons_consistent f
+    (by simpa using h1) tr he
+
+/-! ### Lock classes (part b) -/
+
+/-- The translator's table of what each function may acquire contains all direct
+acquisitions and is closed under the call graph. -/
+theorem acq_table_closed : acqClosed lockClass acqTbl prog = true := by decide +kernel
+
+/-- All (class of a held lock, class of a lock acquired by a possibly blocking operation)
+pairs of the translated code; acquisitions through a LockPile do not count the locks of
+that pile as held (C14.pile_no_hold_and_wait). -/
+def classEdges : Edges := (edgesProg lockClass acqTbl sigma prog []).getD [(0, 0)]
+
+/-- A rank per lock class, computed from the edges (Kahn's algorithm). -/
+def classRanks : List (Nat × Nat) := rankTable classNames.length classEdges
+
+/-- **The lock-class graph extracted from the current source is acyclic**: the rank is
+strictly increasing along every acquired-while-holding edge. In particular there is no
+edge from a class to itself: a directory lock (or any other lock) is never awaited while
+another lock of the same class is held, except through a LockPile. -/
+theorem class_graph_ok :
+    (edgesProg lockClass acqTbl sigma prog []).isSome = true ∧ ranksOk classRanks classEdges = true := by
+  decide +kernel
+
+/-- Link to C14.no_deadlock: in any state of any system of threads in which every
+(held lock, awaited lock) pair of a blocked thread is one of the extracted edges
+(lc = class of a run-time lock), hypothesis H holds for the order rank ∘ class;
+hence the wait-for graph is acyclic. -/
+theorem lock_order_gives_H (holds : Nat → Nat → Prop) (waits : Nat → Option Nat) (lc : Nat → Nat)
+    (hsrc : ∀ t l l', waits t = some l → holds t l' → (lc l', lc l) ∈ classEdges) :
+    BbRe.Lemmas.LockPile.H holds waits (fun l => rankOf classRanks (lc l)) := by
+  intro t l hl
+  right
+  intro l' hh
+  have h := class_graph_ok.2
+  unfold ranksOk at h
+  have := List.all_eq_true.mp h _ (hsrc t l l' hl hh)
+  simpa using this
+
+theorem no_deadlock_by_lock_order (holds : Nat → Nat → Prop) (waits : Nat → Option Nat) (lc : Nat → Nat)
+    (hsrc : ∀ t l l', waits t = some l → holds t l' → (lc l', lc l) ∈ classEdges)
+    (t0 : Nat) (rest : List Nat) :
+    ¬ BbRe.Lemmas.LockPile.Chain (BbRe.Lemmas.LockPile.Edge holds waits) t0 (rest ++ [t0]) :=
+  BbRe.Properties.C14.no_deadlock (lock_order_gives_H holds waits lc hsrc) t0 rest
+
+/-- The translation is not vacuous. -/
+theorem covers_anchored_code : 60 ≤ entries.length ∧ 120 ≤ prog.length ∧ 25 ≤ lockNames.length := by decide +kernel
+
+end BbRe.Properties.C14Generated
+`)
+	return b.String()
+}
+
+func natList(xs []int) string {
+	var b strings.Builder
+	b.WriteString("[")
+	for i, x := range xs {
+		if i > 0 {
+			b.WriteString(", ")
+		}
+		fmt.Fprintf(&b, "%d", x)
+	}
+	b.WriteString("]")
+	return b.String()
+}
+
+func fnName(obj *types.Func) string {
+	sig := obj.Type().(*types.Signature)
+	pkg := obj.Pkg().Name()
+	if r := sig.Recv(); r != nil {
+		ty := r.Type()
+		ptr := ""
+		if p, ok := ty.(*types.Pointer); ok {
+			ty = p.Elem()
+			ptr = "*"
+		}
+		if n, ok := ty.(*types.Named); ok {
+			return fmt.Sprintf("%s.(%s%s).%s", pkg, ptr, n.Obj().Name(), obj.Name())
+		}
+	}
+	return pkg + "." + obj.Name()
+}
+
+// findLits registers the function literals of a declaration. A literal that is
+// invoked in place (`func(){…}()`, `defer func(){…}()`) or bound once to a local
+// variable that is only ever called is inlined at its calls; every other
+// literal (callback, goroutine body, stored closure) becomes a function of its
+// own, with the default summary unless sigma.json says otherwise.
+func (t *Tr) findLits(parent *Fn, body *ast.BlockStmt) {
+	info := parent.Pkg.TypesInfo
+	inPlace := map[*ast.FuncLit]bool{}
+	// literals bound to a local alias variable
+	boundTo := map[*ast.FuncLit]*types.Var{}
+	for v, e := range parent.aliases {
+		if lit, ok := e.(*ast.FuncLit); ok {
+			boundTo[lit] = v
+		}
+	}
+	calledOnly := map[*types.Var]bool{}
+	for _, v := range boundTo {
+		calledOnly[v] = true
+	}
+	var stack []ast.Node
+	ast.Inspect(body, func(n ast.Node) bool {
+		if n == nil {
+			stack = stack[:len(stack)-1]
+			return true
+		}
+		switch x := n.(type) {
+		case *ast.CallExpr:
+			if lit, ok := ast.Unparen(x.Fun).(*ast.FuncLit); ok {
+				isGo := false
+				if len(stack) > 0 {
+					if g, ok := stack[len(stack)-1].(*ast.GoStmt); ok && g.Call == x {
+						isGo = true
+					}
+				}
+				if !isGo {
+					inPlace[lit] = true
+				}
+			}
+		case *ast.Ident:
+			if v, ok := info.Uses[x].(*types.Var); ok && calledOnly[v] {
+				// a use that is not the Fun of a call (or that is started with `go`) makes the closure escape
+				ok := false
+				if len(stack) > 0 {
+					if call, isCall := stack[len(stack)-1].(*ast.CallExpr); isCall && ast.Unparen(call.Fun) == ast.Expr(x) {
+						ok = true
+						if len(stack) > 1 {
+							if g, isGo := stack[len(stack)-2].(*ast.GoStmt); isGo && g.Call == call {
+								ok = false
+							}
+						}
+					}
+				}
+				if !ok {
+					calledOnly[v] = false
+				}
+			}
+		}
+		stack = append(stack, n)
+		return true
+	})
+	var visit func(n ast.Node, owner *Fn)
+	visit = func(n ast.Node, owner *Fn) {
+		ast.Inspect(n, func(m ast.Node) bool {
+			lit, ok := m.(*ast.FuncLit)
+			if !ok {
+				return true
+			}
+			if v, bound := boundTo[lit]; inPlace[lit] || (bound && calledOnly[v]) {
+				visit(lit.Body, owner) // inlined: nested literals still belong to the owner
+				return false
+			}
+			owner.nLits++
+			name := fmt.Sprintf("%s$%d", owner.Name, owner.nLits)
+			if why, ok := t.skip[name]; ok {
+				t.skipped = append(t.skipped, [2]string{name, why})
+				t.skipUsed[name] = true
+				return false
+			}
+			fn := &Fn{Name: name, Lit: lit, Parent: owner, Pkg: owner.Pkg, Formals: map[string]*types.Var{},
+				File: owner.File, Line: t.line(lit.Pos())}
+			if sig, ok := info.Types[lit].Type.(*types.Signature); ok {
+				for i := 0; i < sig.Params().Len(); i++ {
+					if v := sig.Params().At(i); v.Name() != "" {
+						fn.Formals[v.Name()] = v
+					}
+				}
+			}
+			t.fns = append(t.fns, fn)
+			t.byLit[lit] = fn
+			visit(lit.Body, fn)
+			return false
+		})
+	}
+	visit(body, parent)
 }
